@@ -20,7 +20,7 @@ import re
 import subprocess
 import time
 
-from rsx import Source, LostAnchor, norm_ws
+from rsx import Source, LostAnchor, norm_ws, mask
 
 VERIF = os.path.dirname(os.path.dirname(os.path.abspath(__file__)))
 
@@ -213,10 +213,11 @@ class Block(_Extract):
     block is proved for every entry state satisfying the stated precondition.  Both anchors must
     occur exactly once in the function body (else LostAnchor -> exit 2)."""
 
-    def __init__(self, file, name, start, end, header, tail='', impl=None, exclusive=False, keep_start=False, **kw):
+    def __init__(self, file, name, start, end, header, tail='', impl=None, exclusive=False, keep_start=False, keep_end=False, **kw):
         super().__init__(file, **kw)
         self.exclusive = exclusive   # the anchors delimit the block but are not part of it
         self.keep_start = keep_start  # with exclusive=True: the start anchor IS part of the block
+        self.keep_end = keep_end      # with exclusive=True: the end anchor IS part of the block
         self.name = name
         self.impl = impl
         self.start_anchor = start
@@ -242,6 +243,8 @@ class Block(_Extract):
                 if not src.text[l0:a].strip():
                     ls = l0
             b = a + rest.index(self.end_anchor, len(self.start_anchor))
+            if self.keep_end:
+                b += len(self.end_anchor)
             if b < ls:
                 raise LostAnchor('%s: block delimiters overlap' % fn.name)
         else:
@@ -287,16 +290,64 @@ class Assembled:
         return None, None
 
 
+CONST_USE = re.compile(r'(?<![:\w.])([A-Z][A-Z0-9_]{2,})\b(?!\s*(?:::|\(|!|\{))')
+
+
+def _auto_consts(root, parts_rendered):
+    """R25: a file-level `const` that an extracted function or block mentions and that the unit does
+    not declare is pulled in verbatim (same file first, then src/constants.rs).  On the unchanged
+    tree every unit declares what it uses, so this only matters for code that starts to use a new
+    constant: the unit then still reaches the verifier instead of being rejected (undecided)."""
+    full = ''.join(t for (t, _, _) in parts_rendered)
+    declared = set(re.findall(r'\b(?:const|static)\s+([A-Z][A-Z0-9_]*)\s*:', full))
+    extra = {}   # index of part -> text to put in front
+    for k, (text, part, item) in enumerate(parts_rendered):
+        if item is None or not isinstance(part, (Fn, Block)):
+            continue
+        body = mask(text)   # the rendered text (after the rewrite rules), comments and literals blanked
+        for name in sorted(set(CONST_USE.findall(body))):
+            if name in declared:
+                continue
+            for f in (part.file, 'src/constants.rs'):
+                try:
+                    d = Decl(f, 'const', name)
+                    t, it = d.render(root)
+                except (LostAnchor, OSError):
+                    continue
+                extra.setdefault(k, []).append((t + '\n', d, it))
+                declared.add(name)
+                break
+    return extra
+
+
 def assemble(unit, root):
+    rendered = []
+    for part in unit.PARTS:
+        text, item = part.render(root)
+        rendered.append((text, part, item))
+    extra = _auto_consts(root, rendered)
+    # a const may only be placed between items: in front of the first extract of the unit's verus! block
     chunks = []
     segs = []
     pos = 0
-    for part in unit.PARTS:
-        text, item = part.render(root)
+
+    def emit(text, part, item):
+        nonlocal pos
         b = text.encode('utf-8')
         segs.append((pos, pos + len(b), part, item))
         pos += len(b)
         chunks.append(text)
+
+    pending = [x for k in sorted(extra) for x in extra[k]]
+    placed = False
+    for (text, part, item) in rendered:
+        if pending and not placed and isinstance(part, Decl):
+            for (t, d, it) in pending:
+                emit(t, d, it)
+            placed = True
+        emit(text, part, item)
+    if pending and not placed:
+        raise LostAnchor('auto-const: no declaration slot in unit %s' % unit.NAME)
     return Assembled(unit.NAME, ''.join(chunks), segs)
 
 
